@@ -141,12 +141,81 @@ def chain_var(ctx: Ctx, fi: FuncInfo, sel: str) -> str:
 
 def check(rep: Report, ctx: Ctx) -> None:
     sql = sql_of(ctx)
-    r121(rep, ctx, sql)
+    one_query = r128(rep, ctx)
+    if not one_query:
+        # the rules below read "the" streamed query; with several queries
+        # chained they have no subject - R12.8 has already reported why
+        for r in ("R12.1", "R12.4"):
+            rep.minima[r] = 0
+    else:
+        r121(rep, ctx, sql)
+        r124(rep, ctx, sql)
     r122(rep, ctx)
     r123(rep, ctx)
-    r124(rep, ctx, sql)
     r125(rep, ctx, sql)
     r127(rep, ctx, sql)
+
+
+def r128(rep: Report, ctx: Ctx) -> bool:
+    """The consumers group the row stream with itertools.groupby, which only
+    merges ADJACENT rows: the stream must be sorted by the group key as a
+    whole.  One ORDER BY query is; the concatenation of several ordered
+    queries (one per slice of a filter, chained) is sorted within each piece
+    only, and a workflow name comes out once per piece with part of its
+    traces."""
+    from ..roles import Roles
+    rep.rule("R12.8", "the grouped row stream is ONE ordered query", 1)
+    fi = ctx.func("SQLDataHolder.stream_job_name_batches")
+    R = Roles(ctx, fi)
+    loops = [l for l in ast.walk(fi.node) if isinstance(l, ast.For) and any(
+        isinstance(y, (ast.Yield, ast.YieldFrom)) for y in ast.walk(l))]
+    ok, why = False, f"{len(loops)} yielding loop(s)"
+    if len(loops) == 1:
+        reach = ctx.reach(fi)
+        e = loops[0].iter
+        at = loops[0]
+        chain_methods: list[str] = []
+        shape = "?"
+        for _ in range(40):
+            if isinstance(e, ast.Name):
+                bs = reach.at(at, e.id)
+                if len(bs) == 1 and bs[0].kind == "assign":
+                    e, at = bs[0].value, bs[0].stmt
+                    continue
+                if bs and all(b.kind == "assign" for b in bs):
+                    # re-bound along the way (query = query.filter(..)):
+                    # every definition must itself be a query chain; follow
+                    # the textually last one for the ordering clause
+                    b = max(bs, key=lambda x: x.stmt.lineno)
+                    e, at = b.value, b.stmt
+                    continue
+                shape = f"name {e.id}"
+                break
+            if isinstance(e, ast.Call) and isinstance(e.func, ast.Name) \
+                    and e.func.id in ("tqdm", "iter") and e.args:
+                e = e.args[0]
+                continue
+            if isinstance(e, ast.Call) and isinstance(e.func, ast.Attribute):
+                chain_methods.append(e.func.attr)
+                e = e.func.value
+                continue
+            shape = type(e).__name__ if not isinstance(e, ast.Name) else shape
+            break
+        base_ok = "query" in chain_methods and shape in ("name session",
+                                                         "?") or (
+            isinstance(e, ast.Name))
+        n_order = chain_methods.count("order_by")
+        # (whether that one query is ordered by the right key, filtered and
+        # not truncated is the business of R12.1 / R12.4)
+        ok = n_order <= 1 and "query" in chain_methods and base_ok
+        why = (f"rows come from the method chain {chain_methods[::-1]} on "
+               f"{shape}" + ("" if ok else " -- not a single ordered query "
+               "(a concatenation / generator over several queries is sorted "
+               "piecewise, not as a whole)"))
+    rep.ob("R12.8", "the rows that are yielded come from a single "
+           "query.order_by(..) object", ok, fi=fi,
+           node=loops[0] if loops else fi.node, detail=why)
+    return ok
 
 
 def _lambda_attr(e: Optional[ast.AST]) -> Optional[str]:
